@@ -134,6 +134,7 @@ class C15(Prop):
         "digital_text_digital", "generated_tables_consistent", "text_digital_text",
         "canonical_symbol_amino", "canonical_symbol_rna", "canonical_symbol_dna",
         "reverseComplement_twice", "generated_complement_involutive",
+        "flushLeftInserts_spec", "markFragmentsOld_row_spec", "markFragmentsOld_rows", "generated_gap_missing_codes",
         "wuss2ct_accepts_iff", "wuss2ct_involution", "wuss2ct_pairs_matched", "removeBroken_keeps_exactly", "removeBroken_rejects_unbalanced",
         "ct2wuss_shape", "wussReverse_involutive")]
     claimed = True
